@@ -41,6 +41,7 @@ def handle (j : Json) : Json :=
   | some "program" =>
     match fNatList? j "counts", (field? j "ty").bind tyOf? with
     | some counts, some ty =>
+      let bty := ((field? j "bty").bind tyOf?).getD ty
       let n := counts.foldl (· + ·) 0
       if counts.isEmpty then jErr "bad-args" else
       if n == 0 then jErr "AssertionError" else
@@ -48,7 +49,7 @@ def handle (j : Json) : Json :=
       let ranks := List.range counts.length
       jObj [("n", jNat n), ("who", jNats (whoList counts)),
             ("progs", jList (fun r => jList jAct (proj who r (events n))) ranks),
-            ("calls", jList (fun r => jList jCall (calls who ty n r)) ranks),
+            ("calls", jList (fun r => jList jCall (calls who ty bty n r)) ranks),
             ("tree", jTree (pairwiseTree n)),
             ("final", match execAll (events n) (initStore n) 0 with | some t => jTree t | none => Json.null)]
     | _, _ => jErr "bad-args"
